@@ -24,7 +24,8 @@
 (***************************************************************************)
 EXTENDS AMObs, SequencesExt
 
-CONSTANTS GW, GI, RI,        \* group_wait, group_interval, repeat_interval
+CONSTANTS GW, GI, RI,        \* group_wait, group_interval, repeat_interval of the root route
+          Routes,            \* child routes (records as in AMObs: rk, sel, cont, recv, gw, gi, ri, mute, active), all to receiver r1
           SR,                \* sequence of BOOLEAN: send_resolved per integration
           INH,               \* inhibition rule present
           Windows,           \* receiver script: sequence of [integ, from, to, kind]
@@ -43,7 +44,7 @@ dvars == <<grp, gmap, nfl, ids, nposts>>
 allvars == <<ovars, dvars>>
 
 IntegName(i) == "webhook/" \o ToString(i - 1)
-TheCfg == [root |-> RootOnly(GW, GI, RI), routes |-> << >>,
+TheCfg == [root |-> RootOnly(GW, GI, RI), routes |-> Routes,
            integs |-> [i \in 1..Len(SR) |-> [recv |-> "r1", name |-> IntegName(i), sr |-> SR[i]]],
            inhibit |-> INH, windows |-> Windows, wait |-> 0, maxwait |-> 0]
 NInt == Len(SR)
@@ -51,12 +52,12 @@ AgName(i) == "ag" \o ToString(i)
 
 \* notify/dedup_stage.go needsUpdate, verbatim (entry = NoEntry or [ts, firing, resolved])
 NoEntry == [ts |-> -1, firing |-> {}, resolved |-> {}]
-NeedsUpdate(entry, firing, resolved, sendResolved, tick) ==
+NeedsUpdate(entry, firing, resolved, sendResolved, tick, ri) ==
   IF entry.ts = -1 THEN firing # {}
   ELSE IF ~(firing \subseteq entry.firing) THEN TRUE
   ELSE IF firing = {} THEN entry.firing # {}
   ELSE IF sendResolved /\ ~(resolved \subseteq entry.resolved) THEN TRUE
-  ELSE entry.ts < tick - RI
+  ELSE entry.ts < tick - ri
 
 EntryOf(gk, i) == IF <<gk, i>> \in DOMAIN nfl THEN nfl[<<gk, i>>] ELSE NoEntry
 
@@ -72,11 +73,25 @@ KindAt(i, t) == IF \E w \in SeqToSet(Windows) : w.integ = IntegName(i) /\ w.from
 
 Init == /\ now = 0 /\ cfg = TheCfg /\ ver = << >> /\ sil = << >> /\ last = << >> /\ brk = << >> /\ fl = << >>
         /\ cancd = [seen |-> {}, dead |-> << >>, deadgk |-> {}, refl |-> {}, ing |-> << >>, mby |-> << >>]
-        /\ elig = [p \in Alerts \X {IntegName(i) : i \in 1..NInt} |-> -1] /\ chk = {}
+        /\ elig = << >> /\ chk = {}
         /\ grp = << >> /\ gmap = << >> /\ nfl = << >> /\ ids = 0 /\ nposts = 0
 
 -----------------------------------------------------------------------------
 (* Environment *)
+
+\* routeAlert: the alert is handed to the group of every route chosen for it; a group is
+\* created (first flush after the route's group_wait) where none is alive
+RECURSIVE PostFold(_, _, _, _)
+PostFold(st, a, v, gks) ==
+  IF gks = << >> THEN st
+  ELSE LET gk == Head(gks)
+           live == gk \in DOMAIN st.gmap /\ ~st.grp[st.gmap[gk]].dead
+           id == AgName(st.ids + 1)
+           st2 == IF live THEN [st EXCEPT !.grp[st.gmap[gk]].al = Put(@, a, v)]
+                  ELSE [grp |-> Put(st.grp, id, [gk |-> gk, al |-> (a :> v), due |-> now + Opt(gk).gw, st |-> "idle", dead |-> FALSE,
+                                                  tick |-> 0, dl |-> 0, frozen |-> << >>, pl |-> {}, pc |-> << >>]),
+                        gmap |-> Put(st.gmap, gk, id), ids |-> st.ids + 1]
+       IN PostFold(st2, a, v, Tail(gks))
 
 \* POST /api/v2/alerts with one alert: end = now + d (d = 0: resolved now)
 Post(a, d) ==
@@ -84,17 +99,9 @@ Post(a, d) ==
   \* no two updates of one alert at one instant (UpdatedAt has nanosecond resolution)
   /\ ~(a \in DOMAIN ver /\ ver[a].upd = now)
   /\ LET v  == [start |-> now, end |-> now + d, upd |-> now]
-         gk == GroupKeyOf(a)
-         live == gk \in DOMAIN gmap /\ ~grp[gmap[gk]].dead
+         st == PostFold([grp |-> grp, gmap |-> gmap, ids |-> ids], a, v, SetToSeq(GKeys(a)))
      IN /\ Ingest(a, v)
-        /\ IF live
-             THEN /\ grp' = [grp EXCEPT ![gmap[gk]].al = Put(@, a, v)]
-                  /\ UNCHANGED <<gmap, ids>>
-             ELSE LET id == AgName(ids + 1)
-                  IN /\ grp' = Put(grp, id, [gk |-> gk, al |-> (a :> v), due |-> now + GW, st |-> "idle", dead |-> FALSE,
-                                             tick |-> 0, dl |-> 0, frozen |-> << >>, pl |-> {}, pc |-> << >>])
-                     /\ gmap' = Put(gmap, gk, id)
-                     /\ ids' = ids + 1
+        /\ grp' = st.grp /\ gmap' = st.gmap /\ ids' = st.ids
   /\ nposts' = nposts + 1
   /\ UNCHANGED nfl
 
@@ -121,12 +128,12 @@ FlushBeginD(id) ==
          R   == pl \ F
          pcs == [i \in 1..NInt |->
                    IF pl = {} THEN [pc |-> "done", n |-> 0, next |-> 0]   \* MultiStage stops on an empty list
-                   ELSE IF NeedsUpdate(EntryOf(g.gk, i), F, R, SR[i], g.due)
+                   ELSE IF NeedsUpdate(EntryOf(g.gk, i), F, R, SR[i], g.due, Opt(g.gk).ri)
                           THEN [pc |-> "retry", n |-> 0, next |-> now]
                           ELSE [pc |-> "done", n |-> 0, next |-> 0]]
      IN /\ FlushBegin(id, g.gk, fr, now)
-        /\ grp' = [grp EXCEPT ![id] = [g EXCEPT !.st = "flushing", !.tick = g.due, !.due = now + GI,
-                                                 !.dl = now + Max2(GI, MinTimeout), !.frozen = fr, !.pl = pl, !.pc = pcs]]
+        /\ grp' = [grp EXCEPT ![id] = [g EXCEPT !.st = "flushing", !.tick = g.due, !.due = now + Opt(g.gk).gi,
+                                                 !.dl = now + Max2(Opt(g.gk).gi, MinTimeout), !.frozen = fr, !.pl = pl, !.pc = pcs]]
   /\ UNCHANGED <<gmap, nfl, ids, nposts>>
 
 PayloadOf(g, i) ==
